@@ -836,8 +836,15 @@ def translate_scenes_image() -> tuple[str, dict]:
             v = st.value
             if isinstance(v, ast.Call) and ast.unparse(v.func) == 'binformat.find_or_insert':
                 pool_fn, pool_name = t, ast.unparse(v.args[0])
-                if len(v.args) != 2 or not (isinstance(v.args[1], ast.Lambda) and isinstance(v.args[1].body, ast.Name)
-                                            and v.args[1].body.id == v.args[1].args.args[0].arg):
+                kf = v.args[1] if len(v.args) == 2 else next((k.value for k in v.keywords if k.arg == 'key_func'), None)
+                # the key function, normalised: a lambda, or a module-level function whose body is one expression (early returns folded)
+                kbody = kparam = None
+                if isinstance(kf, ast.Lambda) and len(kf.args.args) == 1:
+                    kbody, kparam = kf.body, kf.args.args[0].arg
+                elif isinstance(kf, ast.Name) and kf.id in funcs and len(funcs[kf.id].args.args) == 1:
+                    kbody, kparam = _body_as_expr([x for x in funcs[kf.id].body
+                                                 if not (isinstance(x, ast.Expr) and isinstance(x.value, ast.Constant))]), funcs[kf.id].args.args[0].arg
+                if not (isinstance(kbody, ast.Name) and kbody.id == kparam):
                     raise TranslateError('choreo.py: save_scenes_image_sync: string pool is not keyed by the string itself')
                 continue
             if isinstance(v, ast.Call) and ast.unparse(v.func) == 'binformat.DeferredWrites':
